@@ -32,7 +32,14 @@ def specStepOk (op : String) (before after : List (String × String)) (res : Str
     let target := match op.splitOn ":" with | [_, n] => if n.endsWith ".json" then n else n ++ ".json" | _ => ""
     let removed := (names before).filter fun n => !(names after).contains n && n != target
     let stillRef := refs after
-    (if removed.all (fun n => !stillRef.contains n) then [] else ["del-removed-referenced"])
+    -- the case that was named - by its name or by the name of its case file - is the one that is removed, and besides
+    -- it only its own driver and its own script may go
+    let own := match before.find? (fun e => e.1 == target) with
+      | some (_, k) => if isCase k then (k.splitOn ":").drop 1 else []
+      | none => []
+    (if removed.all (fun n => !stillRef.contains n) then [] else ["del-removed-referenced"]) ++
+    (if removed.all (fun n => own.contains n) then [] else ["del-removed-unrelated"]) ++
+    (if res.startsWith "ok" && (names after).contains target then ["del-ok-but-case-remains"] else [])
   else if op == "list" then
     if res.startsWith "ok:" then
       let expected := ((names before).filter isCaseName).mergeSort (fun a b => decide (a ≤ b))
@@ -40,6 +47,11 @@ def specStepOk (op : String) (before after : List (String × String)) (res : Str
       if got == expected then [] else ["list-mismatch"]
     else []
   else []
+
+/-- `%04d` -/
+def pad4 (i : Nat) : String :=
+  let s := toString i
+  "".pushn '0' (4 - s.length) ++ s
 
 def parentMissing (d : Dir) (n : String) : Bool :=
   match n.splitOn "/" with
@@ -70,6 +82,9 @@ def handleRepo (line : String) : String :=
         | ["plantbad", n] => ("ok", d.put n .badJson)
         -- a hand-written case file whose driver exists and whose script does not
         | ["plantcase", n, dr, sc] => ("ok", (d.put n (.case dr sc)).put dr (.other 0))
+        -- a great many files that are no case files / hand-written case files that all name the same driver and script
+        | ["plantmany", pre, cnt] => ("ok", (List.range cnt.toNat!).foldl (fun d i => d.put (pre ++ pad4 i ++ ".txt") (.other 0)) d)
+        | ["plantcases", pre, cnt, dr, sc] => ("ok", (List.range cnt.toNat!).foldl (fun d i => d.put (pre ++ pad4 i ++ ".json") (.case dr sc)) d)
         | ["plantdir", n] => ("ok", ((d.put n .dir).put (n ++ "/drv.a") (.other 0)).put (n ++ "/lib.a") (.other 0))
         -- a case name inside a sub directory that does not exist: the existence checks pass, writing the case file
         -- fails, nothing is created (and nothing may be removed)
